@@ -320,4 +320,6 @@ def run(chk, ctx):
     r5(chk, ctx)
     r6(chk, ctx)
     r7(chk, ctx)
+    from . import round3
+    round3.rest_no_instance_identity(chk, ctx)
     chk.assume("pika.BasicProperties / basic_publish / basic_consume / queue_declare / basic_ack behave as documented; the broker honours exclusive consumers")
